@@ -213,3 +213,47 @@ def _c04_same_rank(sub: dict, params: dict) -> bool:
     if not idx:
         return False
     return any(m[0] == step["mark"][0] for m in node["m"][idx[0] + 1 :])
+
+
+def retyped_tail(rs, doc_p: dict, x: dict):  # noqa: ANN001, ANN201
+    """For a ReplaceStep descriptor whose slice is open at the end: (to, end) of the outermost ancestor of `to` whose
+    type or attributes differ from the slice's node at that level - the tail [to, end) of that ancestor is moved into a
+    node of another type although no token of it is replaced.  None if nothing is re-typed."""
+    from .ref import resolve as RR
+
+    if x.get("k") != "replace" or not x["slice"]["oe"]:
+        return None
+    try:
+        rp = RR.RefPos(rs, RR.N(doc_p, rs), x["to"])
+    except ValueError:
+        return None
+    oe = x["slice"]["oe"]
+    base = rp.depth - oe
+    if base < 0:
+        return None
+    kids = x["slice"]["c"]
+    for j in range(oe):
+        if not kids:
+            return None
+        nd = kids[-1]
+        doc_nd = rp.node(base + 1 + j).p
+        if nd["t"] != doc_nd["t"] or nd["a"] != doc_nd["a"]:
+            return (x["to"], rp.end(base + 1 + j))
+        kids = nd["c"]
+    return None
+
+
+@predicate("c17_other_step_inside_retyped_tail")
+def _c17_retyped(sub: dict, params: dict) -> bool:
+    """One step of the pair is a ReplaceStep whose open end re-types the tail of a node (a split with another type
+    after it, an open paste ending in another block type) and the other step works inside that tail."""
+    if sub.get("mode") != "c17":
+        return False
+    from .gen import schemas
+
+    _lib, rs = schemas.get(sub["schema"])
+    for x, y in ((sub["a"], sub["hull_b"]), (sub["b"], sub["hull_a"])):
+        t = retyped_tail(rs, sub["doc"], x)
+        if t is not None and t[0] <= y[0] and y[1] <= t[1] + 1:
+            return True
+    return False
